@@ -35,7 +35,12 @@ func runDispatch(cfg *runCfg) {
 			n = 1500
 		}
 	}
-	big := []int{999, 1000, 1001, 1003, 2500}
+	// directed rounds: (pending instances, alive workers); the per-round limit is 1000
+	type dr struct{ size, alive int }
+	directed := []dr{{101, 3}, {250, 3}, {1000, 3}, {1003, 4}, {130, 5}, {999, 2}}
+	if cfg.tier == "thorough" {
+		directed = append(directed, dr{1001, 5}, dr{2500, 3}, dr{700, 4}, dr{333, 2}, dr{1000, 1}, dr{1200, 5})
+	}
 	for it := 0; it < n; it++ {
 		w.Srv.Clear()
 		// population
@@ -44,13 +49,15 @@ func runDispatch(cfg *runCfg) {
 			size = 20 + rng.Intn(60)
 		}
 		pendingBias := rng.Intn(4)
-		if it < len(big) && (cfg.tier == "thorough" || it < 3) {
-			size = big[it] + rng.Intn(5)
-			pendingBias = 3
+		forceAlive := -1
+		if it < len(directed) {
+			size = directed[it].size
+			forceAlive = directed[it].alive
+			pendingBias = 4
 		}
 		for i := 0; i < size; i++ {
 			st := rng.Intn(6)
-			if pendingBias == 3 && rng.Chance(9, 10) || pendingBias == 2 && rng.Chance(1, 2) {
+			if pendingBias == 4 || pendingBias == 3 && rng.Chance(9, 10) || pendingBias == 2 && rng.Chance(1, 2) {
 				st = 0
 			}
 			if pendingBias == 0 && st == 0 && rng.Chance(1, 2) {
@@ -66,6 +73,9 @@ func runDispatch(cfg *runCfg) {
 		// alive set: beat a random ordered subset, age all, re-beat the alive ones
 		order := rng.Perm(len(keys))
 		nreg := rng.Intn(len(keys) + 1)
+		if forceAlive >= 0 {
+			nreg = forceAlive
+		}
 		var registered []string
 		for _, i := range order[:nreg] {
 			must(w.Keepers[keys[i]].VerifHeartBeat())
@@ -74,7 +84,7 @@ func runDispatch(cfg *runCfg) {
 		w.Srv.Age(2*unhealthy + 3*time.Second)
 		var alive []string
 		for _, k := range registered {
-			if rng.Chance(2, 3) {
+			if forceAlive >= 0 || rng.Chance(2, 3) {
 				must(w.Keepers[k].VerifHeartBeat())
 				alive = append(alive, k)
 			}
